@@ -23,14 +23,15 @@ CBMC_BASE = ['--pointer-check', '--bounds-check', '--signed-overflow-check',
 SOLVER = {'kissat': ['--external-sat-solver', 'kissat'], 'cadical': ['--sat-solver', 'cadical'], 'minisat': []}[os.environ.get('VERIF_SOLVER', 'kissat')]
 MEM_KB = int(os.environ.get('VERIF_MEM_KB', str(14 * 1024 * 1024)))     # per process; a CaDiCaL fallback run once grew to 20 GB and triggered the global OOM killer
 
-def _limits():
-    resource.setrlimit(resource.RLIMIT_AS, (MEM_KB * 1024, MEM_KB * 1024))
+def _limits(kb=None):
+    kb = kb or MEM_KB
+    resource.setrlimit(resource.RLIMIT_AS, (kb * 1024, kb * 1024))
     os.setsid()
 
-def run(cmd, timeout, cwd=None, inp=None):
+def run(cmd, timeout, cwd=None, inp=None, mem_kb=None):
     t0 = time.time()
     try:
-        p = subprocess.Popen(cmd, stdout=subprocess.PIPE, stderr=subprocess.PIPE, cwd=cwd, preexec_fn=_limits,
+        p = subprocess.Popen(cmd, stdout=subprocess.PIPE, stderr=subprocess.PIPE, cwd=cwd, preexec_fn=(lambda: _limits(mem_kb)),
                              stdin=subprocess.PIPE if inp is not None else None)
         try:
             out, err = p.communicate(inp, timeout=timeout)
@@ -210,6 +211,8 @@ def _mem_weight(u):
             _MEM_TABLE = {}
     if 'mem_gb' in u:
         return float(u['mem_gb'])
+    if 'mem_limit_gb' in u:
+        return float(u['mem_limit_gb'])
     mb = _MEM_TABLE.get(u['name'])
     return max(1.5, mb / 1024.0 * 1.3) if mb else 3.0
 
@@ -337,7 +340,7 @@ def _run_unit(u, keep=False, mutant=None, timeout=None, verbose=False, trace=Fal
         cb.append(gb2)
         res['checker_cmd'] = ' '.join(cmd[:-2]) + ' ; ' + ' '.join(cb[:-1])
         timed = ['/usr/bin/time', '-f', 'VERIF_MAXRSS_KB %M'] if os.path.exists('/usr/bin/time') else []
-        rc, out, err, dt = run(timed + cb, tmo)
+        rc, out, err, dt = run(timed + cb, tmo, mem_kb=(int(u['mem_limit_gb'] * 1024 * 1024) if u.get('mem_limit_gb') else None))
         res['solver_s'] = round(dt, 2)
         mm = re.search(r'VERIF_MAXRSS_KB (\d+)', err or '')
         if mm:
